@@ -343,19 +343,25 @@ func (x *Exec) Run(lines []string) {
 		case "BLOCK":
 			n, err := strconv.ParseInt(f[1], 10, 64)
 			must(err)
+			haltedBegin := false
 			begin := func() {
 				defer func() {
 					if e := recover(); e != nil {
-						x.Flag("C19-halt", fmt.Sprintf("BeginBlock at height %d panicked: %v", x.C.Height, e))
-						panic(e)
+						haltedBegin = true
+						x.Flag("C19-halt", fmt.Sprintf("BeginBlock at height %d panicked (the chain halts): %v", x.C.Height, e))
+						x.Flag("C17-beginblock-panic", fmt.Sprintf("BeginBlock at height %d panicked: %v", x.C.Height, e))
 					}
 				}()
 				x.C.BeginBlock(time.Unix(0, n).UTC())
 			}
 			if x.pendingUpgrade != "" && x.C.Height+1 == x.upgradeHeight {
-				x.upgradeBegin(begin)
+				x.upgradeBegin(begin, &haltedBegin)
 			} else {
 				begin()
+			}
+			if haltedBegin {
+				x.Out.Decl("%s", l)
+				return // a halted chain processes nothing further
 			}
 			if x.Node != nil {
 				x.Node.blk = &twinBlock{nanos: n, afterRestart: x.Node.restarted}
